@@ -903,6 +903,8 @@ def exec_loop(self, node, st, iterable):
     # 4. one arbitrary iteration
     for sb in body_starts:
         head = State(dict(sb.env), dict(sb.heap), list(sb.pc), sb.next_ref, dict(sb.ghost), sb.labels)
+        sb.labels = dict(sb.labels)
+        sb.labels[f"iter{k}"] = head          # at('iterK', e): e at the start of the (arbitrary) current iteration
         dec0 = self.as_int(self.spec_eval(spec.decreases, sb), sb).z if spec.decreases else None
         for o in self.ex_block(body_nodes, sb):
             if o.kind in ("normal", "continue"):
